@@ -891,7 +891,11 @@ impl Memory {
         let mut reachable = HashSet::new();
 
         while let Some(cell) = stack.pop() {
-            reachable.insert(cell);
+            if !reachable.insert(cell) {
+                // already visited: without this check shared substructure is traversed once per path,
+                // which is exponential for structures like (cons x x) nested n times
+                continue;
+            }
             
             if cell.is_null() {
                 continue;
